@@ -583,3 +583,46 @@ Definition nextProto_unmarshal (data : list byte) : outcome (list byte) :=
 
 Definition serverHelloDone_unmarshal (data : list byte) : outcome unit :=
   if Nat.eqb (length data) 4 then Ok tt else Err 1.
+
+(* ---------- the exact acceptance condition of clientHello's extension block (specification) ---------- *)
+Definition accepts {A} (o : outcome A) : Prop := exists r, o = Ok r.
+
+(* server_name list: entries (type, u16 length, name); parsing stops at the first host_name (type 0) entry,
+   whatever follows it is not looked at *)
+Inductive sni_list_ok : list byte -> Prop :=
+| SNI_nil : sni_list_ok []
+| SNI_host : forall l0 l1 rest, u16n l0 l1 <= length rest -> sni_list_ok (0%N :: l0 :: l1 :: rest)
+| SNI_other : forall t l0 l1 name rest, t <> 0%N -> length name = u16n l0 l1 -> sni_list_ok rest ->
+    sni_list_ok (t :: l0 :: l1 :: name ++ rest).
+
+(* ALPN protocol list: non-empty strings with a one-byte length *)
+Inductive alpn_list_ok : list byte -> Prop :=
+| AL_nil : alpn_list_ok []
+| AL_cons : forall l s rest, N.to_nat l <> 0 -> length s = N.to_nat l -> alpn_list_ok rest -> alpn_list_ok (l :: s ++ rest).
+
+(* body = exactly the [length] bytes of one extension *)
+Definition ext_body_ok (extension : N) (body : list byte) : Prop :=
+  if N.eqb extension extensionServerName then
+    match body with b0 :: b1 :: lst => length lst = u16n b0 b1 /\ sni_list_ok lst | _ => False end
+  else if N.eqb extension extensionNextProtoNeg then body = []
+  else if N.eqb extension extensionStatusRequest then True
+  else if N.eqb extension extensionSupportedCurves then
+    match body with b0 :: b1 :: lst => length lst = u16n b0 b1 /\ Nat.even (length lst) = true | _ => False end
+  else if N.eqb extension extensionSupportedPoints then
+    match body with b0 :: lst => length lst = N.to_nat b0 | _ => False end
+  else if N.eqb extension extensionSessionTicket then True
+  else if N.eqb extension extensionSignatureAlgorithms then
+    match body with b0 :: b1 :: lst => length lst = u16n b0 b1 /\ Nat.even (length lst) = true | _ => False end
+  else if N.eqb extension extensionRenegotiationInfo then
+    match body with b0 :: lst => length lst = N.to_nat b0 | _ => False end
+  else if N.eqb extension extensionALPN then
+    match body with b0 :: b1 :: lst => length lst = u16n b0 b1 /\ alpn_list_ok lst | _ => False end
+  else if N.eqb extension extensionSCT then body = []
+  else True.
+
+(* the block: (u16 type, u16 length, body)* with nothing left over *)
+Inductive ext_block_ok : list byte -> Prop :=
+| EB_nil : ext_block_ok []
+| EB_cons : forall e0 e1 l0 l1 body rest,
+    length body = u16n l0 l1 -> ext_body_ok (u16 e0 e1) body -> ext_block_ok rest ->
+    ext_block_ok (e0 :: e1 :: l0 :: l1 :: body ++ rest).
